@@ -23,7 +23,7 @@ from .peer import PeerSim
 DISC = ConnectionState.DISCONNECTED_BROKEN_CONN
 FRAME_TYPES = ["A", "0", "1", "2", "4gf", "4rs", "5", "D", "8"]
 DEFECTS = ["none", "none", "begin", "sender_wrong", "target_wrong", "swapped", "sender_missing", "target_missing",
-           "seq_missing", "seq_low", "seq_high"]
+           "seq_missing", "seq_low", "seq_high", "seq_alpha"]
 SEND_TYPES = ["D", "0", "A", "5", "1", "2", "4"]
 PREFIXES = ["connected", "logon_sent", "active", "active", "awaiting"]
 
@@ -382,9 +382,12 @@ class GateSim(PeerSim):
                     seq, defect = E, "none"
             elif defect == "seq_high":
                 seq = E + w
+            elif defect == "seq_alpha":
+                seq = ["abc", "1x", ""][w % 3]
             self.app_id += 1
             body = {"A": [("98", "0"), ("108", self.cfg["hb"])], "0": [], "1": [("112", f"Q{self.app_id}")],
-                    "2": [("7", "1"), ("16", "0")], "4gf": [("123", "Y"), ("36", seq + 2)], "4rs": [("36", seq + 2)],
+                    "2": [("7", "1"), ("16", "0")], "4gf": [("123", "Y"), ("36", (seq if isinstance(seq, int) else E) + 2)],
+                    "4rs": [("36", (seq if isinstance(seq, int) else E) + 2)],
                     "5": [("58", "bye")]}.get(t, [("11", f"P-{self.app_id}"), ("55", "ES"), ("54", "1"), ("38", "1"), ("44", "1")])
             mt = "4" if t.startswith("4") else t
             ent = p.send(mt, body, seq=seq, possdup=pd, count=False, spec={"stim": 1, "defect": defect}, **kw)
@@ -582,7 +585,8 @@ class GateSim(PeerSim):
                 bad("wrong-beginstring-answered", f"caused frames {[(d.get('35'), d.get('34')) for d in wrote]}")
             self.probe("wrong_beginstring_discarded")
             return
-        integrity = defect in ("sender_wrong", "target_wrong", "swapped", "sender_missing", "target_missing", "seq_missing")
+        integrity = defect in ("sender_wrong", "target_wrong", "swapped", "sender_missing", "target_missing", "seq_missing",
+                               "seq_alpha")
         too_low = defect == "seq_low" and not pd and not t.startswith("4") and not in_recovery
         if integrity or too_low:
             if delivered:
@@ -591,7 +595,7 @@ class GateSim(PeerSim):
                 bad("defective-frame-counted", f"inbound counter {cur['E']} -> {lv.next_num_in}")
             if not disconnected:
                 bad("defective-frame-tolerated", f"connection is {now.name}, not disconnected")
-            identifiable = defect in ("seq_missing", "seq_low")
+            identifiable = defect in ("seq_missing", "seq_low", "seq_alpha")
             if identifiable and cur["complete"]:
                 lo = [d for d in wrote if d.get("35") == "5"]
                 if not lo or not lo[0].get("58"):
